@@ -296,7 +296,11 @@ func GenInit(t *rapid.T, cfg GenCfg) string {
 	sub := cfg
 	sub.Depth = cfg.Depth - 1
 	sub.MaxStmts = 4
-	switch rapid.IntRange(0, 9).Draw(t, "initkind") {
+	kind := rapid.IntRange(0, 9).Draw(t, "initkind")
+	if kind == 2 && cfg.NoDestruct {
+		kind = 0
+	}
+	switch kind {
 	case 0: // reverting init
 		return CompileHex(Program{{Op: "sstore", A: "1", B: "0x7"}, {Op: "revert", N: 0}})
 	case 1: // stores then returns empty code
